@@ -189,6 +189,39 @@ func damageBody(t *sim.Tape, frame []byte) []byte {
 	return out
 }
 
+// setReserved sets bits that MQTT reserves (and a sender must leave 0) in the
+// flag bytes of the variable header and payload: CONNECT's connect flags bit
+// 0, CONNACK's acknowledge flags bits 1-7, the subscription options bits 6-7,
+// and (sometimes) values MQTT does not define for retain handling / QoS. The
+// API cannot produce such bodies; a decoder may accept them - and whatever it
+// makes of them, it must not touch anything else.
+func setReserved(t *sim.Tape, frame []byte, fm []ref.Field) ([]byte, bool) {
+	var cands []ref.Field
+	for _, f := range fm {
+		switch f.Name {
+		case "ConnectFlags", "AckFlags", "Options":
+			cands = append(cands, f)
+		}
+	}
+	if len(cands) == 0 {
+		return frame, false
+	}
+	out := append([]byte{}, frame...)
+	n := 1 + t.Int(2)
+	for i := 0; i < n; i++ {
+		f := cands[t.Int(len(cands))]
+		switch f.Name {
+		case "ConnectFlags":
+			out[f.Start] |= 0x01
+		case "AckFlags":
+			out[f.Start] |= byte(2 << uint(t.Int(7)))
+		case "Options":
+			out[f.Start] |= []byte{0x40, 0x80, 0xC0, 0x30, 0x03}[t.Int(5)]
+		}
+	}
+	return out, true
+}
+
 // buildGuard builds the real packet through the public API; a panic inside a
 // setter is returned as an error carrying the site.
 func buildGuard(a *ref.AP, t *sim.Tape) (p mq.Packet, ops []drv.Op, err error) {
